@@ -138,6 +138,9 @@ Expected(w) ==
     [] w \in {"refuse_push", "refuse_pushat", "refuse_set"} -> {"ValueError"}     \* the element type's own Assign refuses the value
     [] w \in {"stack_push", "stack_pushat", "stack_pop", "stack_popat", "stack_popatn", "stack_rem", "stack_resize", "stack_concat", "stack_assign"}
          -> {"ValueError"}                                                     \* a Tuple that is a stack object cannot reallocate its items: refused, items untouched
+    [] w \in {"alien_c_str", "alien_c_int", "alien_c_float", "alien_call", "alien_start", "alien_stop", "alien_lock", "alien_sclose", "alien_deref",
+               "alien_current", "alien_currentelem", "alien_sort", "alien_push", "alien_pop", "alien_concat", "alien_join"}
+         -> {"ClassError"}                                                     \* an operation of a class the type does not implement, whatever the dispatcher
     [] OTHER -> {}
 Bad == IsEv("bad") /\ Fails(Expected(E.what))
 
